@@ -16,10 +16,14 @@ for m in sorted(glob.glob(os.path.join(VERIF, "seeded", "*", "meta.json"))):
         # archived for the record: the change does not contradict the statement as written (reason in meta.json and DESIGN 10.4)
         print("%-62s %s not detected, by design: %s" % (name, pid, meta["not_detected_by_design"][:120]), flush=True)
         continue
-    p = subprocess.run([sys.executable, os.path.join(VERIF, "bin", "mutant.py"), "rerun", name, pid] + upd,
+    # the check of the property it breaks -- or, where DESIGN 10.4 leaves the change to a sibling check that owns the
+    # clause (the archived meta.json lists only siblings under detected_by), the first of those
+    by = meta.get("detected_by") or []
+    chk = pid if (pid in by or not by) else by[0]
+    p = subprocess.run([sys.executable, os.path.join(VERIF, "bin", "mutant.py"), "rerun", name, chk] + upd,
                        stdout=subprocess.PIPE, stderr=subprocess.STDOUT, text=True)
     last = p.stdout.strip().splitlines()[-1] if p.stdout.strip() else ""
-    ok = '"%s": 1' % pid in last
+    ok = '"%s": 1' % chk in last
     bad += not ok
-    print("%-62s %s %s" % (name, pid, "detected" if ok else "NOT DETECTED: " + p.stdout[-300:].replace("\n", " ")), flush=True)
+    print("%-62s %s %s%s" % (name, pid, "detected" if ok else "NOT DETECTED: " + p.stdout[-300:].replace("\n", " "), "" if chk == pid else " (by %s)" % chk), flush=True)
 sys.exit(1 if bad else 0)
